@@ -52,6 +52,13 @@ ENGINES["plugins"] = dict(
     branches=["load.ok", "load.noconfig", "load.unknown", "load.setup-error", "load.nil-handler"],
 )
 
+ENGINES["file"] = dict(
+    drv="file", starts=("fsetup",),
+    trivial=r"^(fq4 .* => pass$)|(fq6 .* => pass$)",
+    branches=["fsetup4.ok", "fsetup4.rejected", "fsetup6.ok", "fsetup6.rejected", "fwrite.good", "fwrite.bad", "fq4.listed", "fq4.pass",
+              "fq6.listed", "fq6.pass", "fq6.no-iana", "fq6.no-mac", "file.comment-line", "file.empty-line", "file.duplicate-mac"],
+)
+
 TB_BITSET = "github.com/bits-and-blooms/bitset (New/Test/Set/Clear/NextClear) modelled as List Bool, not verified"
 TB_STD = "Go stdlib net/bytes/encoding/binary/math/bits taken at their documented Nat-level meaning"
 
@@ -64,6 +71,13 @@ TB_CODEC = "insomniacslk/dhcp: FromBytes/ToBytes and the reply constructors are 
 TB_HOOK = "server capture hook (build tag verif): the real HandleMsg4/6 runs; the reply is captured instead of written to a socket"
 
 PROPS = {
+    "C10": dict(
+        engines=[("file", 1500, 20000)],
+        theorems=["C10_holds", "C10_accept_iff_wellformed", "C10_mapping_is_file", "C10_all_or_nothing", "C10_own_file", "C10_D8_prefix_refuted"],
+        modules=["CoreDhcp.Props.C10"],
+        trusted_base=["bytes.Split / strings.Fields / net.ParseMAC / net.ParseIP: each line reaches the model as the fields the code sees with the parsers' answers", "fsnotify delivery ('eventually') is runtime: the harness rewrites the file and waits (bounded) for the served table to be replaced", "dhcpv6.ExtractMAC"],
+        assumptions=["a refresh is one atomic table swap (recLock held by defer in loadFromFile; readers hold RLock)"],
+    ),
     "C08": dict(
         engines=[("prefix", 2500, 40000)],
         theorems=["C08_holds"],
